@@ -262,7 +262,7 @@ func (st *c13State) opAuthorize(a glow.EquipmentAuthorization) {
 			st.w.Fail("C13.panic", "authorize-equipment", "handler panicked: %v\n%s", res.Panic, firstRepoFrames(res.Stack))
 		}
 		ok := res.Status == 200
-		if ok != (want == AuthNew || want == AuthDuplicate) {
+		if (want == AuthNew && !ok) || (want == AuthRefused && ok) {
 			st.w.Fail("C13.linear", "authorize", "authorization for id %d: status %d, the sequential rules in critical-section order say %s", a.ShortID, res.Status, want)
 		}
 	}
